@@ -67,14 +67,17 @@ structure LoopInv (c : Calc) (seqs : List (List Int)) (vis : Nat → Nat → Pro
   dup_sound : ∀ p ∈ st.duped, sq seqs p.1 = sq seqs p.2 ∧ p.1 ∉ st.dupes ∧ p.2 ∈ st.dupes ∧ p.1 < bound
   dup_complete : ∀ j ∈ st.dupes, ∃ i, (i, j) ∈ st.duped
   dists_ok : ∀ a b, a < b → b < seqs.length → vis a b → a ∉ st.dupes →
-    b ∈ st.dupes ∨ (st.dists a b = some (pairStat c (sq seqs a) (sq seqs b)) ∧
-      st.dists b a = some (pairStat c (sq seqs a) (sq seqs b)) ∧ sq seqs a ≠ sq seqs b)
+    b ∈ st.dupes ∨ (st.dists.get a b = some (pairStat c (sq seqs a) (sq seqs b)) ∧
+      st.dists.get b a = some (pairStat c (sq seqs a) (sq seqs b)) ∧ sq seqs a ≠ sq seqs b)
 
 theorem LoopInv.mono {c : Calc} {seqs : List (List Int)} {vis vis' : Nat → Nat → Prop} {bound bound' : Nat} {st : RunState}
     (h : LoopInv c seqs vis bound st) (hv : ∀ a b, a < b → b < seqs.length → vis' a b → vis a b) (hb : bound ≤ bound') :
     LoopInv c seqs vis' bound' st :=
   ⟨fun p hp => let ⟨h1, h2, h3, h4⟩ := h.dup_sound p hp; ⟨h1, h2, h3, by omega⟩, h.dup_complete,
    fun a b hab hb' hvis ha => h.dists_ok a b hab hb' (hv a b hab hb' hvis) ha⟩
+
+theorem dictSet_get (d : Dict) (k : Nat × Nat) (v : Stat) (x y : Nat) :
+    (dictSet d k v).get x y = if x = k.1 ∧ y = k.2 then some v else d.get x y := rfl
 
 theorem contains_iff (l : List Nat) (x : Nat) : l.contains x = true ↔ x ∈ l := by simp
 
@@ -151,14 +154,14 @@ theorem innerStep_inv (c : Calc) (seqs : List (List Int)) (i j : Nat) (st : RunS
       refine ⟨⟨hI.dup_sound, hI.dup_complete, ?_⟩, hi⟩
       intro a b hab hb hvis ha
       show b ∈ st.dupes ∨
-        (dictSet (dictSet st.dists (i, j) _) (j, i) _ a b = _ ∧ dictSet (dictSet st.dists (i, j) _) (j, i) _ b a = _ ∧ _)
+        ((dictSet (dictSet st.dists (i, j) _) (j, i) _).get a b = _ ∧ (dictSet (dictSet st.dists (i, j) _) (j, i) _).get b a = _ ∧ _)
       by_cases hcur : a = i ∧ b = j
       · obtain ⟨rfl, rfl⟩ := hcur
         right
         refine ⟨?_, ?_, hne⟩
-        · unfold dictSet
+        · rw [dictSet_get, dictSet_get]
           rw [if_neg (by intro h; exact absurd h.1 (by omega)), if_pos ⟨rfl, rfl⟩]; rfl
-        · unfold dictSet
+        · rw [dictSet_get, dictSet_get]
           rw [if_pos ⟨rfl, rfl⟩]; rfl
       · have hv : visI i j a b := by
           rcases hvis with h | ⟨h1, h2⟩
@@ -168,10 +171,10 @@ theorem innerStep_inv (c : Calc) (seqs : List (List Int)) (i j : Nat) (st : RunS
         · exact Or.inl h
         · right
           refine ⟨?_, ?_, h3⟩
-          · unfold dictSet
+          · rw [dictSet_get, dictSet_get]
             rw [if_neg (by intro h; simp only at h; omega), if_neg (by intro h; simp only at h; exact hcur ⟨h.1, h.2⟩)]
             exact h1
-          · unfold dictSet
+          · rw [dictSet_get, dictSet_get]
             rw [if_neg (by intro h; simp only at h; exact hcur ⟨h.2, h.1⟩), if_neg (by intro h; simp only at h; omega)]
             exact h2
 
@@ -229,7 +232,7 @@ theorem outerFold_inv (c : Calc) (seqs : List (List Int)) :
 theorem runLoops_inv (c : Calc) (seqs : List (List Int)) :
     LoopInv c seqs (fun a _ => a < seqs.length - 1) (seqs.length - 1) (runLoops c seqs) := by
   unfold runLoops
-  have h0 : LoopInv c seqs (fun a _ => a < 0) 0 ⟨[], [], fun _ _ => none, false⟩ :=
+  have h0 : LoopInv c seqs (fun a _ => a < 0) 0 ⟨[], [], ⟨fun _ _ => none⟩, false⟩ :=
     ⟨fun p hp => absurd hp (List.not_mem_nil), fun j hj => absurd hj (List.not_mem_nil),
      fun a b _ _ hv _ => absurd hv (Nat.not_lt_zero a)⟩
   by_cases hn : seqs.length = 0
@@ -240,12 +243,12 @@ theorem runLoops_inv (c : Calc) (seqs : List (List Int)) :
 /-! ### `_expand` -/
 
 /-- the value `_expand` writes for `name` when expanding an alias of `i` -/
-def expVal (pw : Dict) (i name : Nat) : Stat := if name = i then .zero else (pw i name).getD .invalid
+def expVal (pw : Dict) (i name : Nat) : Stat := if name = i then .zero else (pw.get i name).getD .invalid
 
 theorem expandFold_closed (i j : Nat) (hij : i ≠ j) (pw : Dict) : ∀ (m x y : Nat),
-    ((List.range' 0 m).foldl (expandName j i) pw) x y =
+    ((List.range' 0 m).foldl (expandName j i) pw).get x y =
       if x = j ∧ y ≠ j ∧ y < m then some (expVal pw i y)
-      else if y = j ∧ x ≠ j ∧ x < m then some (expVal pw i x) else pw x y := by
+      else if y = j ∧ x ≠ j ∧ x < m then some (expVal pw i x) else pw.get x y := by
   intro m
   induction m with
   | zero => intro x y; simp
@@ -262,14 +265,13 @@ theorem expandFold_closed (i j : Nat) (hij : i ≠ j) (pw : Dict) : ∀ (m x y :
       have e2 : (y = m ∧ x ≠ m ∧ x < m + 1) ↔ (y = m ∧ x ≠ m ∧ x < m) := by omega
       simp only [e1, e2]
     · rw [if_neg hmj]
-      have hread : dictGet F (i, m) = pw i m := by
-        show F i m = _
+      have hread : dictGet F (i, m) = pw.get i m := by
+        show F.get i m = _
         rw [ih i m, if_neg (by intro h; exact hij h.1), if_neg (by intro h; exact hmj h.1)]
       rw [hread]
-      have hv : (if m = i then Stat.zero else (pw i m).getD .invalid) = expVal pw i m := rfl
+      have hv : (if m = i then Stat.zero else (pw.get i m).getD .invalid) = expVal pw i m := rfl
       rw [hv]
-      unfold dictSet
-      simp only []
+      rw [dictSet_get, dictSet_get]
       rw [ih x y]
       by_cases hA : x = m ∧ y = j
       · obtain ⟨rfl, rfl⟩ := hA
@@ -295,15 +297,15 @@ theorem expandFold_closed (i j : Nat) (hij : i ≠ j) (pw : Dict) : ∀ (m x y :
               rw [if_neg h2, if_neg h2']
 
 theorem expandOne_closed (n i j : Nat) (hij : i ≠ j) (pw : Dict) (x y : Nat) :
-    expandOne n pw (i, j) x y =
+    (expandOne n pw (i, j)).get x y =
       if x = j ∧ y ≠ j ∧ y < n then some (expVal pw i y)
-      else if y = j ∧ x ≠ j ∧ x < n then some (expVal pw i x) else pw x y :=
+      else if y = j ∧ x ≠ j ∧ x < n then some (expVal pw i x) else pw.get x y :=
   expandFold_closed i j hij pw n x y
 
 /-- every key between "settled" indices (non-duplicates and the duplicates in `P`) holds the pair's own report -/
 def Settled (c : Calc) (seqs : List (List Int)) (dupes : List Nat) (P : Nat → Prop) (pw : Dict) : Prop :=
   ∀ x y, x < seqs.length → y < seqs.length → x ≠ y → (x ∉ dupes ∨ P x) → (y ∉ dupes ∨ P y) →
-    pw x y = some (pairReport c (sq seqs x) (sq seqs y))
+    pw.get x y = some (pairReport c (sq seqs x) (sq seqs y))
 
 theorem settled_step (c : Calc) (seqs : List (List Int)) (dupes : List Nat) (P : Nat → Prop) (pw : Dict)
     (i j : Nat) (heq : sq seqs i = sq seqs j) (hi : i ∉ dupes) (hj : j ∈ dupes) (hin : i < seqs.length)
@@ -395,12 +397,12 @@ theorem expand_eq_fold (n : Nat) (st : RunState) : expand n st = st.duped.foldl 
 pair taken alone -/
 theorem expand_settled (c : Calc) (seqs : List (List Int)) (a b : Nat) (ha : a < seqs.length) (hb : b < seqs.length)
     (hab : a ≠ b) :
-    expand seqs.length (run c seqs) a b = some (pairReport c (sq seqs a) (sq seqs b)) := by
+    (expand seqs.length (run c seqs)).get a b = some (pairReport c (sq seqs a) (sq seqs b)) := by
   have hI := runLoops_inv c seqs
   have hduped : (run c seqs).duped = (runLoops c seqs).duped := by
     unfold run clean; split <;> rfl
   have hdists : ∀ x y, x ∉ (runLoops c seqs).dupes → y ∉ (runLoops c seqs).dupes →
-      (run c seqs).dists x y = (runLoops c seqs).dists x y := by
+      (run c seqs).dists.get x y = (runLoops c seqs).dists.get x y := by
     intro x y hx hy
     unfold run clean
     split
